@@ -71,6 +71,8 @@ type Prov struct {
 	// AppendBaseOnly follows only the first operand of builtin append (the slice
 	// being extended), ignoring the appended material.
 	AppendBaseOnly bool
+	// AppendMemory: follow only the base of append (which memory the result may live in, not what it contains).
+	AppendMemory bool
 	// ExpandComposite makes a request for a whole struct built field by field
 	// return the sources of every field instead of one "composite" leaf.
 	ExpandComposite bool
@@ -260,6 +262,11 @@ func (w *walker) extract(x *ssa.Extract, path []string) {
 }
 
 func (w *walker) call(v ssa.Value, cc *ssa.CallCommon, res int, path []string) {
+	if b, ok := cc.Value.(*ssa.Builtin); ok && b.Name() == "append" && w.pv.AppendMemory {
+		// memory identity: the result is the base's backing array or a fresh one, never the appended material's
+		w.val(cc.Args[0], path)
+		return
+	}
 	if b, ok := cc.Value.(*ssa.Builtin); ok && b.Name() == "append" {
 		for i, a := range cc.Args {
 			if i > 0 && w.pv.AppendBaseOnly {
